@@ -565,31 +565,25 @@ theorem fastcgi_remote_addr_from_connection (N : Net Addr Prefix) (cfg : Cfg Pre
   | none => simp [hp] at h
   | some hdr => simp [hp, fcgiEnvOf] at h; subst h; exact ⟨rfl, rfl⟩
 
-/-- the value reverse_proxy set under a forwarding field is always one the CGI variable can take -/
-theorem fastcgi_candidates_contain_the_field (h : Header) (vs : List Bytes)
-    (hg : hGet h kXFF = some (some vs)) : joinWith commaSpace vs ∈ envCandidates h envXFF := by
-  unfold envCandidates
-  refine List.mem_map.mpr ⟨(kXFF, some vs), ?_, rfl⟩
-  exact List.mem_filter.mpr ⟨hGet_mem h kXFF (some vs) hg, by simp [envXFF]⟩
-
-/-- no other field of the request has the CGI name `name` than the field `key` itself (decidable) -/
+/-- no other HYPHEN-spelled field of the request has the CGI name `name` than `key` itself (decidable; holds
+    for every header map net/http builds, whose keys are canonical) -/
 def cgiNameUnique (h : Header) (name key : Bytes) : Bool :=
-  (h.filter (fun e => envName e.1 = name)).map (fun e => e.1) == [key]
+  (h.filter (fun e => envName e.1 = name && hyphenSpelled e.1)).map (fun e => e.1) == [key]
 
-/- FULL statement: for an untrusted peer the only value HTTP_X_FORWARDED_FOR can take is the connection's.
-   It FAILS on the tree as it is: `fastcgi_forwarded_variable_full_fails` (Witness.lean) — a client field
-   spelled `X_Forwarded_For` gets the same CGI name and Go's map order decides which one is written last. -/
-
-/-- **partial.** Outside the explicit, decidable exclusion "another field of the prepared request has the
-    same CGI name", the CGI variable of a forwarding field can only take the value reverse_proxy set. -/
-theorem fastcgi_forwarded_variable_partial (h : Header) (vs : List Bytes)
+/-- **the application sees the proxy's value.** Whatever fields spelled with underscores or spaces the
+    client sent (`X_Forwarded_For: …`), the CGI variable of X-Forwarded-For can only take the value
+    reverse_proxy set under that field.  (The code before the repair violated this:
+    `fastcgi_underscore_twin_won_in_old_code`, Witness.lean.) -/
+theorem fastcgi_forwarded_variable_is_the_field (h : Header) (vs : List Bytes)
     (hg : hGet h kXFF = some (some vs)) (hu : cgiNameUnique h envXFF kXFF = true) :
     envCandidates h envXFF = [joinWith commaSpace vs] := by
   unfold cgiNameUnique at hu
   unfold envCandidates
-  have hm : (kXFF, some vs) ∈ h.filter (fun e => envName e.1 = envXFF) :=
-    List.mem_filter.mpr ⟨hGet_mem h kXFF (some vs) hg, by simp [envXFF]⟩
-  generalize h.filter (fun e => envName e.1 = envXFF) = l at hu hm
+  have hm : (kXFF, some vs) ∈ h.filter (fun e => envName e.1 = envXFF && hyphenSpelled e.1) :=
+    List.mem_filter.mpr ⟨hGet_mem h kXFF (some vs) hg, by
+      have : (decide (envName kXFF = envXFF) && hyphenSpelled kXFF) = true := by decide
+      simpa using this⟩
+  generalize h.filter (fun e => envName e.1 = envXFF && hyphenSpelled e.1) = l at hu hm
   have hl : l.map (fun e => e.1) = [kXFF] := by simpa using hu
   cases l with
   | nil => simp at hl
@@ -600,6 +594,15 @@ theorem fastcgi_forwarded_variable_partial (h : Header) (vs : List Bytes)
       have : (kXFF, some vs) = e := by simpa using hm
       subst this
       rfl
+
+/-- a field spelled with '_' or ' ' never reaches the application, whatever its CGI name -/
+theorem fastcgi_ambiguous_fields_dropped (h : Header) (name v : Bytes) (hv : v ∈ envCandidates h name) :
+    ∃ e, e ∈ h ∧ envName e.1 = name ∧ hyphenSpelled e.1 = true ∧ v = envValueOf e := by
+  unfold envCandidates at hv
+  obtain ⟨e, he, rfl⟩ := List.mem_map.mp hv
+  obtain ⟨hm, hp⟩ := List.mem_filter.mp he
+  simp only [Bool.and_eq_true, decide_eq_true_eq] at hp
+  exact ⟨e, hm, hp.1, hp.2, rfl⟩
 
 /-! ## facts regenerated from the source on every run (tools/extract → Gen/Forwarding.lean) -/
 
@@ -999,14 +1002,14 @@ example : wrapAccept toyNetZ exPP b!"tcp" b!"10.0.0.1:443" (some b!"6.6.6.6:7777
 example : ppPeerAddr toyNetZ b!"[fe80::1%eth0]:1" = some b!"fe80::1" ∧ unixOrFd b!"tcp" = false ∧
     witPP.deny.any (fun r => toyNetZ.contains r b!"fe80::1") = true := by decide
 example : parsePolicy b!"Require" = some .require ∧ parsePolicy b!"bogus" = none ∧ ppFallback none = some .ignore := by decide
--- FastCGI: REMOTE_ADDR of a bracketed, zoned IPv6 socket address; an underscore twin widens what the
--- variable can take, without one it is exactly the connection's value
+-- FastCGI: REMOTE_ADDR of a bracketed, zoned IPv6 socket address; an underscore twin does not change what
+-- the variable can take
 example : fcgiRemote b!"[fe80::1%eth0]:51234" = (b!"fe80::1%eth0", b!"51234") ∧ fcgiRemote b!"/run/x.sock" = (b!"/run/x.sock", []) ∧
     envName b!"X_forwarded-For" = envXFF := by decide
 example : (serveFcgi toyNet exCfg exUntrusted exHeaders .none).map (fun e => (e.xff, e.xfp, e.xfh)) =
     some ([b!"fe80::1"], [b!"https"], [b!"example.com"]) := by decide
 example : (serveFcgi toyNet exCfg exUntrusted ((b!"X_Forwarded_Proto", b!"http") :: exHeaders) .none).map (fun e => e.xfp) =
-    some [b!"https", b!"http"] := by decide
+    some [b!"https"] := by decide
 -- targeted_options_stay_on_their_listener: a block for :8443 does not reach the server listening on :80
 example : (optionsFor (some b!":8443") [b!":80"] ⟨some [b!"10.0.0.0/8"], true, some [b!"X-Real-IP"], [], phClientIP⟩).srvRanges = none ∧
     optionsFor (some b!":8443") [b!":8443"] ⟨some [b!"10.0.0.0/8"], true, none, [], phClientIP⟩ =
